@@ -55,7 +55,9 @@ TABLE_OBLIGATIONS = [
     "Ural.Props.C03.escape_recognisers_agree",
     # Props/C03Requote.lean: UNSAFE_FOR_* vs the regenerated safe set of safely_quote
     "Ural.Props.C03.quote_safe_set_model",
+    "Ural.Props.C03.qsl_quote_safe_set_model",
     "Ural.Props.C03.unsafe_sets_requote_safe",
+    "Ural.Props.C03.plus_is_not_percent_2b",
 ]
 RULE = (
     "A case is a collision class: [stream 'inv', harness/c03_invisible.py, right after the corpus] a control / "
@@ -108,7 +110,9 @@ UNPROVED = (
     "KF-C02-1 family, which really fails (witness in Props/C03.lean, KF-C03-4); QuotedClean reads the regenerated unsafe sets, so "
     "Props/C03Requote.lean derives it from a FIXED exclusion (QuotedDelimFree: no raw '=' inside a query value, no raw '#' in "
     "the query, '?'/'#' in the path, no control character) through the table obligation unsafe_sets_requote_safe (every byte "
-    "of UNSAFE_FOR_PATH / _QUERY_ITEM / _FRAGMENT is in the regenerated safe set of safely_quote, or is the space / '%', or a "
+    "of UNSAFE_FOR_PATH / _QUERY_ITEM / _FRAGMENT is in the regenerated safe set of the quoting step of its component - safely_quote, and "
+    "for a query item safely_quote_qsl, which since FX-C01-PLUS quotes with safe='/+' so that '+', now in UNSAFE_FOR_QUERY_ITEM, is left alone "
+    "(qsl_quote_safe_set_model, plus_is_not_percent_2b) -, or is the space / '%', or a "
     "delimiter of its component) and restates (c1)/(a) under it (normalize_canonicalize_quoted_partial, "
     "normalize_of_canon_eq_quoted_partial): a table edit cannot widen the exclusion, it breaks the obligation — for paths that are empty or absolute "
     "(every URL with an authority), under PunyLaws (PathHyp — three normpath facts — is discharged from "
